@@ -71,6 +71,9 @@ def main():
         return 2
     if sys.argv[1] == "setup":
         return setup()
+    if sys.argv[1] == "setup-incremental":
+        info = core.build()
+        return 0 if info["make_ok"] else 1
     if sys.argv[1] == "replay":
         return replay(sys.argv[2])
     return check(sys.argv[1], sys.argv[2] if len(sys.argv) > 2 else "quick")
